@@ -8,6 +8,7 @@ import (
 
 	"github.com/jawher/mow.cli/internal/container"
 	"github.com/jawher/mow.cli/internal/values"
+	"github.com/jawher/mow.cli/internal/verifhook"
 )
 
 // BoolArg describes a boolean argument
@@ -387,6 +388,7 @@ func (c *Cmd) VarArg(name string, value flag.Value, desc string) {
 }
 
 func (c *Cmd) mkArg(arg container.Container) {
+	verifhook.Point("cmd.mkArg")
 	if !validArgName(arg.Name) {
 		panic(fmt.Sprintf("invalid argument name %q: must be in all caps", arg.Name))
 	}
